@@ -32,7 +32,7 @@ fn mismatch_class(expected: Option<&Vec<u8>>, got: &Option<Vec<u8>>) -> &'static
 }
 
 impl GetOracle {
-    fn judge(&mut self, sess: &Session, out: &mut CaseOut, key: &[u8], got: &Result<Option<Vec<u8>>, String>, reason: &str) {
+    pub fn judge(&mut self, sess: &Session, out: &mut CaseOut, key: &[u8], got: &Result<Option<Vec<u8>>, String>, reason: &str) {
         self.verified += 1;
         let expected = sess.model.get(key);
         match got {
@@ -88,7 +88,94 @@ impl Observer for GetOracle {
     }
 }
 
+
+/// One bulk history (thorough tier only): ~150 MiB of incompressible values through default-sized
+/// files, so that data is pushed down to level 3 by the size triggers alone; overwrites and
+/// deletes on the way; sampled gets and a full scan against the reference map.
+fn case_bulk(out: &mut CaseOut, seed: u64) {
+    use crate::director::director;
+    use crate::gen::{self, Config};
+    use crate::simfs::SimFs;
+    let mut rng = Rng::new(mix(&[seed], "c01-bulk"));
+    director().reset(rng.next_u64());
+    crate::watch::set_call_limit(std::time::Duration::from_secs(300));
+    crate::watch::set_case_limit(std::time::Duration::from_secs(3000));
+    let cfg = Config { memtable: 1 << 20, file: 2 << 20, block: 4096, reuse: true };
+    let fs = SimFs::from_image(&crate::dbutil::root_image());
+    let mut sess = Session::new(fs, cfg);
+    sess.fill_cache = false;
+    if let Err(e) = sess.open() {
+        out.violate("C01/open-failed/fresh-database", json!({"error": e}));
+        return;
+    }
+    let total = 150 * 1024 * 1024 / 1000;
+    let mut max_level = 0usize;
+    for i in 0..total {
+        crate::watch::tick();
+        // mostly fresh keys in pseudo-random order, some overwrites and deletes of earlier ones
+        let id = if i > 1000 && rng.chance(0.1) { rng.below(i as u64) } else { i as u64 };
+        let k = format!("bulk{:09}", id.wrapping_mul(2_654_435_761) % 1_000_000_007).into_bytes();
+        let r = if rng.chance(0.03) {
+            sess.delete(&k)
+        } else {
+            let v = gen::tagged_value(&mut rng, &format!("b{i}:"), 1000);
+            sess.put(&k, &v)
+        };
+        if let Err(e) = r {
+            out.inconclusive(format!("degenerate: bulk write refused: {e}"));
+            sess.close();
+            return;
+        }
+        if i % 20_000 == 0 {
+            let shape = sess.shape();
+            max_level = max_level.max(shape.iter().rposition(|n| *n > 0).unwrap_or(0));
+        }
+    }
+    sess.wait_quiescent(std::time::Duration::from_secs(120));
+    let shape = sess.shape();
+    max_level = max_level.max(shape.iter().rposition(|n| *n > 0).unwrap_or(0));
+    let mut oracle = GetOracle { prop: "C01", verified: 0 };
+    let keys: Vec<Vec<u8>> = sess.model.keys().step_by(41).cloned().collect();
+    for k in &keys {
+        let got = sess.get(k);
+        oracle.judge(&sess, out, k, &got, "bulk");
+        if out.is_violated() {
+            break;
+        }
+    }
+    // a few keys that were deleted or never written
+    for i in 0..200u64 {
+        let k = format!("bulk{:09}", (i * 7919 + 13) % 1_000_000_007).into_bytes();
+        let got = sess.get(&k);
+        oracle.judge(&sess, out, &k, &got, "bulk");
+    }
+    if !out.is_violated() {
+        match sess.scan(None) {
+            Ok(entries) => {
+                let same = entries.len() == sess.model.len() && entries.iter().zip(sess.model.iter()).all(|(a, b)| a.0 == *b.0 && a.1 == *b.1);
+                if !same {
+                    out.violate("C01/bulk/scan-differs-from-reference", json!({"expected": sess.model.len(), "got": entries.len(), "shape": shape_string(&shape)}));
+                }
+            }
+            Err(e) => out.violate("C01/bulk/scan-error", json!({"error": e})),
+        }
+    }
+    out.add("verified_gets", oracle.verified);
+    out.max("level_reached", max_level as u64);
+    if max_level >= 2 {
+        out.nontrivial(format!("bulk/level{max_level}/shape[{}]", shape_string(&shape)));
+    }
+    out.sample = Some(json!({"family": "bulk", "config": cfg.describe(), "writes": total, "files_per_level": shape_string(&shape), "deepest_level": max_level, "keys": sess.model.len()}));
+    sess.close();
+    crate::watch::set_call_limit(std::time::Duration::from_secs(60));
+}
+
 pub fn run_case(tier: &str, seed: u64, idx: u64) -> CaseOut {
+    if tier != "quick" && idx == 0 {
+        let mut out = CaseOut::new();
+        case_bulk(&mut out, seed);
+        return out;
+    }
     let mut out = CaseOut::new();
     let mut rng = Rng::new(mix(&[seed, idx], "c01"));
     let n_ops = if tier == "quick" { 300 } else { rng.range(300, 2000) as usize };
